@@ -72,8 +72,10 @@ fn specialise(d: &Design, k: usize, rng: &mut Rng) -> Design {
         let expr = t[pos + "    assign o0 = ".len()..end].to_string();
         t.replace_range(pos..end, &format!("    assign o0 = ({expr}) ^ cm_y"));
     }
-    let last = t.rfind("}\n").unwrap();
-    t.insert_str(last, &inst);
+    // declare + instantiate right after the port list (declaration must precede its use)
+    let hdr = t.find(&format!("module Top{k} (")).unwrap();
+    let body = t[hdr..].find("\n) {\n").map(|p| hdr + p + "\n) {\n".len()).unwrap();
+    t.insert_str(body, &inst);
     let mut nd = d.clone();
     nd.text = t;
     nd.top = format!("Top{k}");
@@ -91,6 +93,7 @@ struct CaseOut {
     configs: Vec<String>,
     mismatch: Option<Json>,
     panic: Option<(String, String)>,
+    fresh_panics: usize,
 }
 
 fn configs() -> Vec<(&'static str, Config)> {
@@ -146,14 +149,28 @@ fn run_case(seed: u64, i: u64, cycles: usize) -> CaseOut {
         for (t, (k, stim)) in seq.iter().enumerate() {
             let d = &designs[*k];
             let top = d.top.as_str();
+            // from scratch first: a conversion that fails or panics on its own says nothing about the cache
+            let fresh = std::panic::catch_unwind(std::panic::AssertUnwindSafe(|| -> Result<Trace, String> {
+                let fresh_ir = build_ir(&a.ir, top.into(), &cfg).map_err(|e| e.to_string())?;
+                let mut sim = Simulator::new(fresh_ir, None);
+                run_on(&mut sim, d, stim)
+            }));
+            let tf = match fresh {
+                Err(_) => {
+                    let _ = vcommon::pool::take_panic_info();
+                    out.fresh_panics += 1;
+                    break;
+                }
+                Ok(Err(e)) => {
+                    out.status = format!("sim_build_error: {}", e.lines().next().unwrap_or(""));
+                    return out;
+                }
+                Ok(Ok(t)) => t,
+            };
             let r = std::panic::catch_unwind(std::panic::AssertUnwindSafe(|| -> Result<(Trace, Trace), String> {
                 let cached_ir = build_ir_cached(&a.ir, top.into(), &cfg, &mut cache).map_err(|e| e.to_string())?;
                 let mut sim = Simulator::new(cached_ir, None);
                 let tc = run_on(&mut sim, d, stim)?;
-                drop(sim);
-                let fresh_ir = build_ir(&a.ir, top.into(), &cfg).map_err(|e| e.to_string())?;
-                let mut sim = Simulator::new(fresh_ir, None);
-                let tf = run_on(&mut sim, d, stim)?;
                 Ok((tc, tf))
             }));
             match r {
@@ -161,12 +178,12 @@ fn run_case(seed: u64, i: u64, cycles: usize) -> CaseOut {
                     let info = vcommon::pool::take_panic_info();
                     out.panic = Some((
                         info.as_ref().map(|p| p.location.clone()).unwrap_or_default(),
-                        format!("config {cname}, test #{t} on {top}: {}", info.map(|p| p.message).unwrap_or_default()),
+                        format!("config {cname}, test #{t} on {top} (from-scratch run of the same test did not panic): {}", info.map(|p| p.message).unwrap_or_default()),
                     ));
                     return out;
                 }
                 Ok(Err(e)) => {
-                    out.status = format!("sim_build_error: {}", e.lines().next().unwrap_or(""));
+                    out.status = format!("cached_build_error_but_fresh_ok: {}", e.lines().next().unwrap_or(""));
                     return out;
                 }
                 Ok(Ok((tc, tf))) => {
@@ -233,12 +250,19 @@ fn report(run: &Run, i: u64, r: Result<CaseOut, vcommon::pool::PanicInfo>) {
         Ok(o) => {
             if o.status != "ok" {
                 run.count(&format!("not_simulated_{}", o.status.split(':').next().unwrap_or("")), 1);
+                if o.status.starts_with("rejected") {
+                    run.seen("rejection_reasons", &o.status);
+                    if std::env::var("VERIF_DUMP_REJECTED").is_ok() {
+                        eprintln!("--- rejected case {i}: {}\n{}", o.status, o.text);
+                    }
+                }
                 if o.status.starts_with("parse_error") {
                     run.note(format!("case {i}: {}", o.status.chars().take(300).collect::<String>()));
                 }
                 return;
             }
             run.count("sequences_run", 1);
+            run.count("configs_skipped_because_from_scratch_conversion_panics", o.fresh_panics as i64);
             run.count("tests_compared", o.tests as i64);
             run.count("cache_hits", o.hits as i64);
             run.count("steps_compared", o.steps as i64);
